@@ -32,6 +32,7 @@ ITY = {  # LP64, char signed
     "int": ("i32", 32, True), "unsigned int": ("u32", 32, False),
     "long": ("i64", 64, True), "unsigned long": ("u64", 64, False),
     "long long": ("i64", 64, True), "unsigned long long": ("u64", 64, False),
+    "wchar_t": ("i32", 32, True), "char8_t": ("u8", 8, False), "char16_t": ("u16", 16, False), "char32_t": ("u32", 32, False),
 }
 
 
@@ -40,7 +41,8 @@ class Refuse(Exception):
 
 
 def ast_dump(tu_text, name):
-    tu = "/tmp/.cxx2gallina_%d.cpp" % os.getpid()
+    import threading
+    tu = "/tmp/.cxx2gallina_%d_%d.cpp" % (os.getpid(), threading.get_ident())
     with open(tu, "w") as f:
         f.write(tu_text)
     try:
@@ -85,6 +87,8 @@ def ity_of(node):
 
 
 class Tr:
+    kernel_calls = {}     # C++ function name -> Gallina name of an already generated kernel (set per configuration)
+
     def __init__(self, records, calls, members):
         self.binds = []       # list of (kind, name, rhs) ; kind in {"do", "let"}
         self.n = 0
@@ -104,6 +108,9 @@ class Tr:
         if k in ("ParenExpr", "ExprWithCleanups", "MaterializeTemporaryExpr", "ConstantExpr", "CXXBindTemporaryExpr"):
             return self.expr(inner[0])
         if k == "IntegerLiteral":
+            v = int(n["value"])
+            return str(v) if v >= 0 else f"({v})"
+        if k == "CharacterLiteral":
             v = int(n["value"])
             return str(v) if v >= 0 else f"({v})"
         if k == "CXXBoolLiteralExpr":
@@ -181,6 +188,13 @@ class Tr:
                     return self.expr(callee["inner"][0])
             if name in self.calls and self.calls[name] == "id":
                 return self.expr(inner[1])
+            if name in self.kernel_calls and callee.get("kind") == "DeclRefExpr":
+                # a call to a kernel translated earlier in the same file: evaluate the arguments (left to right;
+                # they are side-effect free in the accepted subset), then bind the callee's checked result
+                args = [self.expr(x) for x in inner[1:]]
+                t = self.fresh()
+                self.binds.append(("do", t, f"{self.kernel_calls[name]} " + " ".join(args)))
+                return t
             raise Refuse(f"call to {name}")
         raise Refuse(f"expression kind {k}")
 
@@ -204,7 +218,7 @@ class Tr:
         s = src
         while s.get("kind") in ("ParenExpr",):
             s = s["inner"][0]
-        if s.get("kind") == "IntegerLiteral":
+        if s.get("kind") in ("IntegerLiteral", "CharacterLiteral"):
             v = int(s["value"])
             lo = -(1 << (dbits - 1)) if dsg else 0
             hi = (1 << (dbits - 1)) - 1 if dsg else (1 << dbits) - 1
@@ -329,8 +343,9 @@ def select(objs, k):
     return cands[0]
 
 
-def translate_kernel(k, cfg):
-    objs = ast_dump(cfg["tu"], k["cxx_name"])
+def translate_kernel(k, cfg, objs=None):
+    if objs is None:
+        objs = ast_dump(cfg["tu"], k["cxx_name"])
     fn = select(objs, k)
     tr = Tr(cfg.get("records", {}), cfg.get("calls", {}), k.get("members", {}))
     params = []
@@ -349,27 +364,79 @@ def translate_kernel(k, cfg):
     return f"Definition {k['gallina_name']} {sig} :=\n  {term}.\n"
 
 
+def preprocessed_key(cfg):
+    """sha256 of the preprocessed translation unit + this translator + the configuration: the generated file is a
+    function of exactly these, so an unchanged key means an unchanged output (the AST dumps are skipped)"""
+    import hashlib
+    tu = "/tmp/.cxx2gallina_pp_%d.cpp" % os.getpid()
+    with open(tu, "w") as f:
+        f.write(cfg["tu"])
+    try:
+        r = subprocess.run(["clang++", "-std=c++20", f"-I{REPO}/include", "-E", "-P", tu], capture_output=True, text=True, timeout=300)
+    finally:
+        os.remove(tu)
+    if r.returncode != 0:
+        return None
+    h = hashlib.sha256()
+    h.update(r.stdout.encode())
+    h.update(open(os.path.abspath(__file__), "rb").read())
+    h.update(json.dumps(cfg, sort_keys=True).encode())
+    return h.hexdigest()
+
+
 def main():
     cfg = json.load(open(sys.argv[1]))
+    outp = sys.argv[2]
+    keyp = os.path.join(os.path.dirname(outp), "." + os.path.basename(outp) + ".key")
+    key = preprocessed_key(cfg)
+    if key is not None and os.path.exists(outp) and os.path.exists(keyp):
+        try:
+            old = json.load(open(keyp))
+            if old.get("key") == key:
+                print(json.dumps({"refused": old.get("refused", {}), "kernels": [k["gallina_name"] for k in cfg["kernels"]],
+                                  "changed": False, "cached": True}))
+                return 1 if old.get("refused") else 0
+        except (OSError, ValueError):
+            pass
     out = ["(* GENERATED by translate/cxx2gallina.py from %s/include — do not edit.  Regenerated on every run. *)" % "REPO",
            "From Tetl Require Import Lib.Base.", "Local Open Scope Z_scope.",
            "Notation \"'do' x <- a ; b\" := (obind a (fun x => b)) (at level 200, x name, a at level 100, b at level 200).", ""]
     refused = {}
+    Tr.kernel_calls = {}
+    # the AST dumps are independent of each other: fetch them in parallel, translate in order
+    from concurrent.futures import ThreadPoolExecutor
+    names = sorted({k["cxx_name"] for k in cfg["kernels"]})
+    with ThreadPoolExecutor(max_workers=8) as ex:
+        dumps = dict(zip(names, ex.map(lambda nm: _safe_dump(cfg["tu"], nm), names)))
     for k in cfg["kernels"]:
         try:
-            out.append(translate_kernel(k, cfg))
+            d = dumps[k["cxx_name"]]
+            if isinstance(d, Refuse):
+                raise d
+            out.append(translate_kernel(k, cfg, d))
+            if k.get("callable"):
+                Tr.kernel_calls[k["cxx_name"]] = k["gallina_name"]
         except Refuse as e:
             refused[k["gallina_name"]] = str(e)
             out.append(f"(* REFUSED {k['gallina_name']}: {e} *)\n")
     text = "\n".join(out)
-    outp = sys.argv[2]
     old = open(outp).read() if os.path.exists(outp) else None
     if old != text:
         os.makedirs(os.path.dirname(outp), exist_ok=True)
         with open(outp, "w") as f:
             f.write(text)
+    if key is not None:
+        with open(keyp, "w") as f:
+            json.dump({"key": key, "refused": refused}, f)
     print(json.dumps({"refused": refused, "kernels": [k["gallina_name"] for k in cfg["kernels"]], "changed": old != text}))
     return 1 if refused else 0
+
+
+def _safe_dump(tu, name):
+    try:
+        return ast_dump(tu, name)
+    except Refuse as e:
+        return e
 
 
 if __name__ == "__main__":
